@@ -48,6 +48,7 @@ Step(ln) ==
         ks == o.keys
         S == S2(ks)
     IN CASE o.name = "add"       -> AddLoose(h, ks[1])
+         [] o.name = "readd"     -> AddLoose(h, ks[1])     \* Damage(k) . AddLoose(h, k): the damaged copy is replaced
          [] o.name = "addpack"   -> AddToPack(h, ks, o.z, o.noholes, o.twice)
          [] o.name = "pack"      -> PackAllLoose(h, o.mode, o.perpack, NewRowKeys(ln.obs))
          [] o.name = "clean"     -> Clean(h)
